@@ -3549,8 +3549,13 @@ def simplify_assign_immediate_return(source: str) -> str:
                 parsing.assignment_targets(assignment), ast.Name(id=str)
         ))
 
+        shared_names = {
+            name for node in core.walk(scope, (ast.Global, ast.Nonlocal)) for name in node.names
+        }
         names_assigned_only_once = tuple(
-            name for name, count in name_assign_counts.items() if count == 1
+            name
+            for name, count in name_assign_counts.items()
+            if count == 1 and name not in shared_names
         )
         name_template = ast.Name(id=names_assigned_only_once)
 
